@@ -1,0 +1,77 @@
+//go:build verif
+
+package eval
+
+// Contracts checked by /verif/goavc (comment-only file, built only with -tags verif).
+
+// Specification state of one evaluation run: the highest phase any expression has entered
+// (1 execute DSL, 2 prepare, 3 validate, 4 finalize) and, per root, the phases completed.
+//@ ghost spec var phase Int
+//@ ghost spec var dslDone (Array Iface Bool)
+//@ ghost spec var prepDone (Array Iface Bool)
+//@ ghost spec var valDone (Array Iface Bool)
+//@ ghost spec var finDone (Array Iface Bool)
+//@ smt (declare-fun rootPos (Int) Int)
+
+//@ macro walkerPhase(w) = ite(w == runSet, 1, ite(w == prepareSet, 2, ite(w == validateSet, 3, ite(w == finalizeSet, 4, 0))))
+
+// The environment: a root walks its expression sets with the walker it is given. Callbacks may register
+// roots and record errors; they do not touch the list RunDSL iterates over.
+//@ iface goa.design/goa/v3/eval.Root.WalkSets
+//@   params root walker
+//@   requires* barrier: walkerPhase(walker) >= phase && walkerPhase(walker) >= 1
+//@   requires* clean.before.finalize: walkerPhase(walker) == 4 && phase < 4 ==> Context.Errors == nil
+//@   ensures old(phase) <= phase && phase <= walkerPhase(walker)
+//@   ensures phase < walkerPhase(walker) ==> Context.Errors == old(Context.Errors)
+//@   ensures dslDone == ite(walker == runSet, store(old(dslDone), root, true), old(dslDone))
+//@   ensures prepDone == ite(walker == prepareSet, store(old(prepDone), root, true), old(prepDone))
+//@   ensures valDone == ite(walker == validateSet, store(old(valDone), root, true), old(valDone))
+//@   ensures finDone == ite(walker == finalizeSet, store(old(finDone), root, true), old(finDone))
+//@   ensures Context != nil && Context == old(Context)
+//@   ensures Context.roots.arr == old(Context.roots.arr) || fresh(Context.roots)
+//@   modifies Context.Errors, Context.roots, Context.Stack, Context.dslPackages, elems(Context.roots), phase, dslDone, prepDone, valDone, finDone
+
+//@ func prepareSet
+//@   trusted
+//@   requires* barrier: phase <= 2
+//@   requires* clean.before.prepare: phase < 2 ==> Context.Errors == nil
+//@   ensures old(phase) <= phase && phase <= 2
+//@   ensures phase < 2 ==> Context.Errors == old(Context.Errors)
+//@   ensures Context.roots.arr == old(Context.roots.arr) || fresh(Context.roots)
+//@   modifies Context.Errors, Context.roots, Context.Stack, Context.dslPackages, elems(Context.roots), phase
+
+//@ func validateSet
+//@   trusted
+//@   requires* barrier: phase <= 3
+//@   ensures old(phase) <= phase && phase <= 3
+//@   ensures Context.roots.arr == old(Context.roots.arr) || fresh(Context.roots)
+//@   modifies Context.Errors, Context.roots, Context.Stack, Context.dslPackages, elems(Context.roots), phase
+
+//@ func finalizeSet
+//@   trusted
+//@   requires* clean.before.finalize: phase < 4 ==> Context.Errors == nil
+//@   ensures old(phase) <= phase && phase <= 4
+//@   ensures phase < 4 ==> Context.Errors == old(Context.Errors)
+//@   ensures Context.roots.arr == old(Context.roots.arr) || fresh(Context.roots)
+//@   modifies Context.Errors, Context.roots, Context.Stack, Context.dslPackages, elems(Context.roots), phase
+
+// Roots (dependency sort): assumed here, checked by the bounded stand-in (all digraphs over <= 4 roots).
+//@ func (*DSLContext).Roots
+//@   trusted
+//@   requires c != nil
+//@   ensures result1 == nil ==> fresh(result0) || len(result0) == 0
+//@   ensures result1 == nil ==> forall i int :: 0 <= i && i < len(c.roots) ==> 0 <= rootPos(i) && rootPos(i) < len(result0) && result0[rootPos(i)] == c.roots[i]
+//@   modifies nothing
+
+//@ func RunDSL
+//@   property C11
+//@   requires Context != nil && phase == 0
+//@   let n0 = len(old(Context.roots))
+//@   ensures* all.phases.complete: result == nil ==> forall i int :: 0 <= i && i < n0 ==> select(dslDone, old(Context.roots[i])) && select(prepDone, old(Context.roots[i])) && select(valDone, old(Context.roots[i])) && select(finDone, old(Context.roots[i]))
+//@   ensures* failed.never.finalized: result != nil ==> phase < 4
+//@   ensures* all.registered.executed: result == nil ==> forall i int :: 0 <= i && i < len(Context.roots) ==> select(dslDone, Context.roots[i])
+//@   loop 1 invariant outer: allocated(roots) && Context.roots.arr != roots.arr && 0 <= executed && executed <= len(roots) && phase <= 1 && Context != nil && len(roots) > 0 && fresh(roots) && (forall j int :: 0 <= j && j < executed ==> select(dslDone, roots[j])) && 0 <= n0 && (forall i int :: 0 <= i && i < n0 ==> 0 <= rootPos(i) && rootPos(i) < len(roots) && roots[rootPos(i)] == old(Context.roots[i]))
+//@   loop 2 invariant inner: allocated(roots) && Context.roots.arr != roots.arr && 0 - 1 <= rangeindex && 0 <= start && start <= len(roots) && executed == len(roots) && phase <= 1 && Context != nil && fresh(roots) && (forall j int :: 0 <= j && j < start + rangeindex + 1 ==> select(dslDone, roots[j])) && 0 <= n0 && (forall i int :: 0 <= i && i < n0 ==> 0 <= rootPos(i) && rootPos(i) < len(roots) && roots[rootPos(i)] == old(Context.roots[i]))
+//@   loop 3 invariant prepare: allocated(roots) && Context.roots.arr != roots.arr && 0 - 1 <= rangeindex#2 && phase <= 2 && Context != nil && fresh(roots) && (phase < 2 ==> Context.Errors == nil) && (forall j int :: 0 <= j && j < len(roots) ==> select(dslDone, roots[j])) && (forall j int :: 0 <= j && j <= rangeindex#2 ==> select(prepDone, roots[j])) && 0 <= n0 && (forall i int :: 0 <= i && i < n0 ==> 0 <= rootPos(i) && rootPos(i) < len(roots) && roots[rootPos(i)] == old(Context.roots[i]))
+//@   loop 4 invariant validate: allocated(roots) && Context.roots.arr != roots.arr && 0 - 1 <= rangeindex#3 && phase <= 3 && Context != nil && fresh(roots) && (forall j int :: 0 <= j && j < len(roots) ==> select(dslDone, roots[j])) && (forall j int :: 0 <= j && j < len(roots) ==> select(prepDone, roots[j])) && (forall j int :: 0 <= j && j <= rangeindex#3 ==> select(valDone, roots[j])) && 0 <= n0 && (forall i int :: 0 <= i && i < n0 ==> 0 <= rootPos(i) && rootPos(i) < len(roots) && roots[rootPos(i)] == old(Context.roots[i]))
+//@   loop 5 invariant finalize: allocated(roots) && Context.roots.arr != roots.arr && 0 - 1 <= rangeindex#4 && Context != nil && fresh(roots) && (phase < 4 ==> Context.Errors == nil) && (forall j int :: 0 <= j && j < len(roots) ==> select(dslDone, roots[j])) && (forall j int :: 0 <= j && j < len(roots) ==> select(prepDone, roots[j])) && (forall j int :: 0 <= j && j < len(roots) ==> select(valDone, roots[j])) && (forall j int :: 0 <= j && j <= rangeindex#4 ==> select(finDone, roots[j])) && 0 <= n0 && (forall i int :: 0 <= i && i < n0 ==> 0 <= rootPos(i) && rootPos(i) < len(roots) && roots[rootPos(i)] == old(Context.roots[i]))
